@@ -57,7 +57,7 @@ LABEL_NAMES = ["class", "let", "static", "enum", "await", "arguments", "eval", "
                "typeof", "void", "with", "yield", "super", "throw", "try", "catch", "do", "while", "in", "function"]
 # names the generated helper code uses; never handed out as variable names
 HELPERS = {"at", "ix", "tr", "pg", "ps", "cnd", "cnq", "cl", "push", "runfs", "two", "h3", "P", "S", "T", "arr", "mp", "sv", "sl",
-           "fs", "tv", "main", "r", "myInt", "idxs", "mkP", "pint", "sb", "ip", "sp", "any", "pp", "ppush", "runpp"}
+           "fs", "tv", "main", "r", "myInt", "idxs", "mkP", "pint", "sb", "ip", "sp", "any", "pp", "ppush", "runpp", "use_uint32", "use_uint", "use_uintptr", "use_uint8", "use_uint16", "u", "sw"}
 
 
 class Gen:
@@ -99,7 +99,7 @@ class Gen:
         r = self.rng
         w = {"plain": 4, "opassign": 4, "swap": 1, "rotate": 0.7, "tuple": 0.8}
         if not simple:
-            w.update({"evalorder": 2.5, "closure": 0.8, "runfs": 0.5, "shadow": 1.2, "runpp": 0.4})
+            w.update({"evalorder": 2.5, "closure": 0.8, "runfs": 0.5, "shadow": 1.2, "runpp": 0.4, "unsigned": 3.0})
             if getattr(self, "_hdrs", None):
                 # closures / pointers capturing loop HEADER variables of the enclosing loops (inner and outer)
                 w.update({"capture-closure": 2.5, "capture-pointer": 2.0})
@@ -155,6 +155,20 @@ class Gen:
             return self.add_act([6, 0, 0, 0, 0, 0])
         if k == "runpp":
             return self.add_act([13, 0, 0, 0, 0, 0])
+        if k == "unsigned":
+            # binary operator on an unsigned type with a boundary CONSTANT on either side and a run-time operand whose top bit
+            # is often set; the result is used in sign-sensitive contexts (print, ==, >, /, conversion to 64 bit / float, switch, %)
+            ty = r.randrange(0, 5)
+            ops = [0, 0, 1, 2, 3, 7, 8, 10] if ty in (1, 2) else [0, 0, 1, 2, 3, 4, 5, 6, 7, 8, 9, 10]
+            op = 0 if r.random() < 0.3 else r.choice(ops)
+            # constants with the top bit set are the interesting ones for the 32-bit representation
+            ci, side = r.choice([0, 1, 3, 4, 7, 0, 1, 3, 4, 7, 2, 5, 6]), r.randrange(0, 2)
+            if op == 9 and ty in (1, 2):
+                op = 10
+            self.count("unsigned:%s %s const-%s" % (UTYPES[ty], UOPS[op], "left" if side else "right"))
+            self.count("unsigned:const:%s" % UCONST_NAMES[ci])
+            x = r.choice([0, 1, 2, 3, 8, 9, 10, 11] + list(range(13, 29)))
+            return self.add_act([14, self.dstvar(), x, op, ci * 2 + side, ty])
         if k in ("capture-closure", "capture-pointer"):
             cv, is_range, depth_of = r.choice(self._hdrs)
             v = cv if not is_range or r.random() < 0.5 else cv + 25       # K (4+ld) or the range value V (29+ld)
@@ -537,6 +551,62 @@ type T struct{ pad int }
 
 var tv T
 
+
+func use_uint32(id int, r, c uint32) {
+	sw := "d"
+	switch r {
+	case c:
+		sw = "k"
+	case 0:
+		sw = "z"
+	}
+	println("u", id, r, r == c, r > 0x80000000-1, r/3, int(uint64(r)>>31), float64(r) >= 0x80000000, sw)
+}
+
+func use_uint(id int, r, c uint) {
+	sw := "d"
+	switch r {
+	case c:
+		sw = "k"
+	case 0:
+		sw = "z"
+	}
+	println("u", id, r, r == c, r > 0x80000000-1, r/3, int(uint64(r)>>31), float64(r) >= 0x80000000, sw)
+}
+
+func use_uintptr(id int, r, c uintptr) {
+	sw := "d"
+	switch r {
+	case c:
+		sw = "k"
+	case 0:
+		sw = "z"
+	}
+	println("u", id, r, r == c, r > 0x80000000-1, r/3, int(uint64(r)>>31), float64(r) >= 0x80000000, sw)
+}
+
+func use_uint8(id int, r, c uint8) {
+	sw := "d"
+	switch r {
+	case c:
+		sw = "k"
+	case 0:
+		sw = "z"
+	}
+	println("u", id, r, r == c, r > 0x80-1, r/3, int(uint64(r)>>7), float64(r) >= 0x80, sw)
+}
+
+func use_uint16(id int, r, c uint16) {
+	sw := "d"
+	switch r {
+	case c:
+		sw = "k"
+	case 0:
+		sw = "z"
+	}
+	println("u", id, r, r == c, r > 0x8000-1, r/3, int(uint64(r)>>15), float64(r) >= 0x8000, sw)
+}
+
 type myInt int
 type ip *int
 type sp *S
@@ -550,6 +620,22 @@ func sb(j int) string { return string(rune(j)) }
 
 CELLS = ["arr[%d]", "mp[%d]", "sv.x[%d]", "sl[%d]"]
 OPS = {0: "+=", 1: "-="}
+UTYPES = ["uint32", "uint", "uintptr", "uint8", "uint16"]
+UOPS = ["&", "|", "^", "&^", "+", "-", "*", "/", "%", "<<", ">>"]
+UCONST_NAMES = ["top-bit", "all-ones", "top-bit-clear", "upper-half", "upper-nibble", "one", "0x55..", "0xAA.."]
+
+
+def uwidth(ty):
+    return {3: 8, 4: 16}.get(ty, 32)
+
+
+def uconst(w, ci):
+    m = 1 << w
+    return [m // 2, m - 1, m // 2 - 1, m - (1 << (w // 2)), 15 << (w - 4), 1, (m - 1) // 3, (m - 1) // 3 * 2][ci % 8]
+
+
+def ushift(w, ci):
+    return [1, w - 1, w // 2, 3][ci % 4]
 OPNAMES = ["+=", "-=", "++", "--", "%=", "*=", "/=", "|=", "&=", "^=", "&^=", ">>=", "<<="]
 WI_NAMES = ["call", "numeric-conversion", "named-conversion", "parens", "unary", "binary", "index-of-index+conversion",
             "type-assertion", "func-literal-called", "composite-literal", "selector-of-call", "deref-of-call",
@@ -646,6 +732,20 @@ class Render:
             return ["ppush(%d, &%s)" % (aid, vn(a))]
         if kind == 13:
             return ["runpp(%d)" % aid]
+        if kind == 14:
+            dst, x, op, cs, ty = a, b, c, d, e
+            T, w = UTYPES[ty], uwidth(ty)
+            ci, side = cs // 2, cs % 2
+            C = "0x%X" % uconst(w, ci)
+            o = UOPS[op]
+            if op in (9, 10):
+                ex = "u %s %d" % (o, ushift(w, ci)) if side == 0 else "%s(%s) %s (u & 7)" % (T, C, o)
+            elif op in (7, 8):
+                ex = "u %s (%s | 1)" % (o, C) if side == 0 else "%s %s (u | 1)" % (C, o)
+            else:
+                ex = "u %s %s" % (o, C) if side == 0 else "%s %s u" % (C, o)
+            return ["{ u := %s(uint32(%s)*2654435761 + 0x9E3779B9); r := %s; use_%s(%d, r, %s); %s = at(%d, int(r %% 251)) }" % (
+                T, vn(x), ex, T, aid, C, vn(dst), aid)]
         if kind == 7:
             dst, x, k = a, b, c
             n = vn(x)
@@ -937,7 +1037,7 @@ THEOREMS = ["direct_correct", "direct_unique", "direct_correct_ctx", "interp_sou
             "encodeIdent_inj_utf8", "names_distinct_plain_valid", "renderInj_ascii", "names_distinct_plain_ascii", "render_clash",
             "encodeIdent_ascii_id", "tuple_assign_counterexample", "tuple_assign_partial"]
 ENV_THEOREMS = ["reserved_covers_es", "reserved_model_exact", "reserved_covers_used", "keywords_alone_miss_console",
-                "escape_cutoff_is_loop_body"]
+                "escape_cutoff_is_loop_body", "unsigned_bitops_normalised"]
 
 JOB_TIMEOUT = 300
 
@@ -1403,6 +1503,34 @@ def escape_cutoffs():
     return res
 
 
+def bitop_templates():
+    """JavaScript templates of the integer `&` `|` `&^` `^` branches of translateExpr (compiler/expressions.go): for each
+    branch the list of (guard, template, wrapped in fixNumber?) of every `return` in it"""
+    src = open(os.path.join(C.REPO, "compiler", "expressions.go")).read()
+    i = src.index("case token.AND, token.OR:")
+    j = src.index("default:", i)
+    region = src[i:j]
+    res = []
+    branch, guard, depth_unsigned = None, "", None
+    depth = 0
+    for line in region.split("\n"):
+        t = line.strip()
+        m = re.match(r"case token\.([A-Z_, .token]+):", t)
+        if m:
+            branch = m.group(1).replace("token.", "").replace(" ", "")
+            guard, depth_unsigned, depth = "", None, 0
+            continue
+        if t.startswith("if isUnsigned(basic)"):
+            depth_unsigned = depth
+        m = re.search(r'return (fc\.fixNumber\()?fc\.format(?:Paren)?Expr\("([^"]*)"', t)
+        if m and branch:
+            res.append((branch, "unsigned" if depth_unsigned is not None else "any", m.group(2), bool(m.group(1))))
+        depth += t.count("{") - t.count("}")
+        if depth_unsigned is not None and depth <= depth_unsigned:
+            depth_unsigned = None
+    return res
+
+
 def write_generated(kw, used, seeded):
     gdir = os.path.join(C.LEAN, "GV", "Generated")
     os.makedirs(gdir, exist_ok=True)
@@ -1418,6 +1546,9 @@ def write_generated(kw, used, seeded):
            "def rootSeededBytes : List (List Nat) := %s\n"
            "def usedUnqualified : List String := %s\n"
            "def escapeCutoffs : List (String × String) := [%s]\n"
+           "def bitopTemplates : List (String × String × String × Bool) := [" + ", ".join(
+               "(%s, %s, %s, %s)" % (json.dumps(a), json.dumps(b), json.dumps(t), "true" if f else "false")
+               for a, b, t, f in bitop_templates()).replace("%", "%%") + "]\n"
            "end GV.Generated\n") % (strs(kw), strs(seeded), "[" + ", ".join(str(list(k.encode())) for k in seeded) + "]",
                                     strs(sorted(used)), ", ".join("(%s, %s)" % (json.dumps(a), json.dumps(b)) for a, b in escape_cutoffs()))
     old = open(path).read() if os.path.exists(path) else None
@@ -1583,7 +1714,8 @@ def run(tier, seed):
             chk.notes.append("obligation / tie broken: widened search with targeted generation")
             extra = 120 if tier == "quick" else 300
             gens = [gen_program(rng, 40, maxdepth=5, focus={"stmt": {"continue": 3, "switch": 2, "loop": 2, "break": 2},
-                                                           "act": {"opassign": 2, "rotate": 3, "swap": 3, "runfs": 0.0}})
+                                                           "act": {"opassign": 2, "rotate": 3, "swap": 3, "runfs": 0.0, "unsigned": 3,
+                                                                   "capture-closure": 2, "capture-pointer": 2}})
                     for _ in range(extra)]
             for g in gens:
                 for c in g.calls:
